@@ -92,3 +92,47 @@ Example C04_witness_nontrivial :
   /\ autofix_available (run Default [] [wit_line] [wit_check1; wit_check2]) = true
   /\ s_panic (run ShowAutofix [] [wit_line] [wit_check1; wit_check2]) = false.
 Proof. repeat split; vm_compute; congruence. Qed.
+
+(* ---------- a paragraph-level check between other fixes (Model/ModesPara.v) ----------
+   VaralignBlock: Process remembers the raw texts of every line of the paragraph
+   when the line is checked; the other checkers of the same round (any checks)
+   may then fix lines already remembered with Replace/ReplaceAfter, InsertAbove
+   or Custom (mid_ok); Finish compares and, as coded, gives the paragraph up
+   when a remembered line has changed; otherwise it prints notes that are a
+   function of what was remembered, fixing with ReplaceAt (notes_ok).
+   Then Finish adds nothing to the -f run that the default run lacks: every
+   diagnostic of the -f run was there before Finish, or is a diagnostic of the
+   default run.  The checks before the paragraph are as in
+   C04_show_diags_subset_default_partial; Panic excluded in the statement. *)
+From PV Require Import Model.ModesPara Proofs.ModesPara.
+Theorem C04_para_finish_adds_nothing :
+  forall (lvl : str -> level) only ls (pre : list check) (phases : list (nat * list check)) (notes : snap -> list event),
+  checks_ok lvl pre -> mid_ok lvl [] phases -> notes_ok lvl notes ->
+  s_panic (run_para para_finish Default only ls pre phases notes) = false ->
+  forall it, In it (diags (run_para para_finish ShowAutofix only ls pre phases notes)) ->
+    In it (diags (p_st (para_before ShowAutofix only ls pre phases)))
+    \/ In it (diags (run_para para_finish Default only ls pre phases notes)).
+Proof. exact para_finish_adds_nothing. Qed.
+Print Assumptions C04_para_finish_adds_nothing.
+
+(* the same statement for a Finish that splits a changed line again and goes
+   on is FALSE (witness: `A=v`, "=" replaced by "+=" after Process, notes that
+   depend on the width of varname+operator) *)
+Definition C04_para_resplit_adds_nothing : Prop := para_resplit_adds_nothing.
+Theorem C04_para_resplit_refuted : ~ C04_para_resplit_adds_nothing.
+Proof. exact para_resplit_refuted. Qed.
+Print Assumptions C04_para_resplit_refuted.
+
+(* non-vacuity: on that witness Finish as coded gives the paragraph up with -f
+   (nothing added), the default run does not panic; and without the other fix
+   both modes print the note *)
+Example C04_para_witness_as_coded :
+  diags (run_para para_finish ShowAutofix [] [pw_line] [] [(0%nat, [pw_mid])] pw_notes)
+  = diags (p_st (para_before ShowAutofix [] [pw_line] [] [(0%nat, [pw_mid])]))
+  /\ s_panic (run_para para_finish Default [] [pw_line] [] [(0%nat, [pw_mid])] pw_notes) = false
+  /\ In pw_item (diags (run_para para_finish ShowAutofix [] [pw_line2] [] [(0%nat, [])] pw_notes))
+  /\ In pw_item (diags (run_para para_finish Default [] [pw_line2] [] [(0%nat, [])] pw_notes)).
+Proof. exact para_witness_as_coded. Qed.
+Example C04_para_guards_satisfiable :
+  checks_ok pw_lvl [] /\ mid_ok pw_lvl [] [(0%nat, [pw_mid])] /\ notes_ok pw_lvl pw_notes.
+Proof. exact (conj pw_pre_ok (conj pw_mid_ok pw_notes_ok)). Qed.
